@@ -758,6 +758,12 @@ def run_c05(run, thorough=False):
             continue
         st = im["stmts"][m["stmt"]] if im["k"] == "ok" else None
         got = st["bytes"] if st else None
+        if im["k"] == "ok" and im.get("image") is not None and all(x["bytes"] is not None for x in im["stmts"]) and \
+                im["image"] != "".join(x["bytes"] for x in im["stmts"]):
+            # the bytes that reach the output are those of the image: it must consist of exactly the statements' bytes
+            run.violate("C05: the emitted image does not consist of exactly the bytes the directives specify", inp,
+                        "".join(x["bytes"] for x in im["stmts"])[:80], im["image"][:80])
+            continue
         if st is not None and got is None:
             run.violate("C13/C05: emitting a data directive fails with an internal error", inp, "bytes", None, known_id=None)
             continue
